@@ -245,3 +245,47 @@ class Renamed:
 
     def floor(self, rule, n):
         return self._c.floor(self._rn(rule), n)
+
+
+class Filtered:
+    """Proxy of a Ctx that keeps only the rule instances whose rule name
+    starts with `prefix` and files them under `newname`; everything else the
+    borrowed checker reports (and every attribute it sets) is dropped.  Lets
+    a property run ONE rule family of another property's run()."""
+
+    def __init__(self, ctx, prefix, newname):
+        object.__setattr__(self, '_c', ctx)
+        object.__setattr__(self, '_p', prefix)
+        object.__setattr__(self, '_n', newname)
+        object.__setattr__(self, '_own', {})
+
+    def __getattr__(self, name):
+        own = object.__getattribute__(self, '_own')
+        if name in own:
+            return own[name]
+        return getattr(object.__getattribute__(self, '_c'), name)
+
+    def __setattr__(self, name, value):
+        object.__getattribute__(self, '_own')[name] = value
+
+    def _keep(self, rule):
+        return rule.startswith(self._p)
+
+    def check(self, rule, *a, **k):
+        if self._keep(rule):
+            return self._c.check(self._n, *a, **k)
+        return bool(a[1]) if len(a) > 1 else True
+
+    def fail(self, rule, *a, **k):
+        if self._keep(rule):
+            return self._c.fail(self._n, *a, **k)
+
+    def ok(self, rule, *a, **k):
+        if self._keep(rule):
+            return self._c.ok(self._n, *a, **k)
+
+    def floor(self, rule, n):
+        return None
+
+    def note(self, text):
+        return None
